@@ -402,6 +402,10 @@ def rand_output(rng, prompt, crc=False):
             lines.append("grüße €".encode())
         elif k < 0.45:
             lines.append(b"y" * rng.randint(4000, 4200))
+        elif k < 0.55:
+            # a progress display that rewrites its line: carriage returns that are not part of a line end
+            n = rng.randint(1, 4)
+            lines.append(b"\r".join(b"Loading: " + b"#" * i for i in range(1, n + 1)) + (b"\r" if rng.random() < 0.5 else b""))
         else:
             lines.append(bytes(rng.choice(b"abc =>#$'\\\"0") for _ in range(rng.randint(0, 12))))
     out = b"\n".join(lines)
